@@ -173,15 +173,15 @@ static void enumerate(void) {
 			if (rep && DREP == REP_AFF) continue;
 			if (!vf_tier && bi >= 1 && rep != 0 && rep != 3) continue;
 			if (!vf_mine()) continue;
-			K.op = "pair"; K.n = 7; mpz_set_si(K.v[1], mi); mpz_set_si(K.v[2], bi); mpz_set(K.v[3], S.v[a]); mpz_set(K.v[4], S.v[b]); mpz_set_si(K.v[5], rep & 1); mpz_set_si(K.v[6], rep >> 1); vf_run(&K); }
+			vf_stat_add("states", rep == 0); K.op = "pair"; K.n = 7; mpz_set_si(K.v[1], mi); mpz_set_si(K.v[2], bi); mpz_set(K.v[3], S.v[a]); mpz_set(K.v[4], S.v[b]); mpz_set_si(K.v[5], rep & 1); mpz_set_si(K.v[6], rep >> 1); vf_run(&K); }
 		/* multi-pairings: m in 0..4 (thorough: ..6), identity in the G1 slot, G2 slot or both at every subset of positions for m <= 3, at each single position above */
 		for (int mi = 0; mi < NMAPS; mi++) for (int m = 0; m <= (vf_tier ? 6 : 4) && !vf_expired(); m++) {
 			long nsub = m <= 3 ? (1L << (2 * m)) : 0;
 			for (long sub = 0; sub < (nsub ? nsub : 1 + 3 * m); sub++) for (long v = 0; v < (vf_tier ? 3 : 1); v++) if (vf_mine()) {
 				long idb = nsub ? sub : (sub == 0 ? 0 : ((1 + (sub - 1) % 3) << (2 * ((sub - 1) / 3))));
-				K.op = "sim"; K.n = 4; mpz_set_si(K.v[1], mi); mpz_set_si(K.v[2], m); mpz_set_si(K.v[3], (idb << 8) | (long)((sub * 5 + v * 11 + m) & 0xff)); vf_run(&K); } }
+				vf_stat_add("states", 1); K.op = "sim"; K.n = 4; mpz_set_si(K.v[1], mi); mpz_set_si(K.v[2], m); mpz_set_si(K.v[3], (idb << 8) | (long)((sub * 5 + v * 11 + m) & 0xff)); vf_run(&K); } }
 		/* line functions: (a, b, c) over small multiples */
-		for (int bi = 0; bi < 2; bi++) for (long a = 1; a <= 3; a++) for (long b = 1; b <= (vf_tier ? 12 : 6); b++) for (long c2 = -3; c2 <= 6; c2++) if (vf_mine()) { K.op = "line"; K.n = 5; mpz_set_si(K.v[1], bi); mpz_set_si(K.v[2], a); mpz_set_si(K.v[3], b); mpz_set_si(K.v[4], c2); vf_run(&K); }
+		for (int bi = 0; bi < 2; bi++) for (long a = 1; a <= 3; a++) for (long b = 1; b <= (vf_tier ? 12 : 6); b++) for (long c2 = -3; c2 <= 6; c2++) if (vf_mine()) { vf_stat_add("states", 1); K.op = "line"; K.n = 5; mpz_set_si(K.v[1], bi); mpz_set_si(K.v[2], a); mpz_set_si(K.v[3], b); mpz_set_si(K.v[4], c2); vf_run(&K); }
 		vf_dom_clear(&S);
 		vf_bound_done(bn);
 	}
